@@ -56,6 +56,8 @@ type scheduler struct {
 	blockAfter time.Duration // > 0: a process that does not settle within this time is considered blocked on an in-process lock
 	dead    map[string]bool
 	clientPids map[string][]string // store-client name (= replica) -> controlled processes served by that replica
+	outstanding map[*parkedStep]bool // every step that is parked right now (stop releases them all, whatever happened to the bookkeeping)
+	anomalies  []string              // commands that arrived while their process already had a parked step: something runs outside the schedule
 }
 
 func classifyCmd(cmd string, args []string) (string, bool) {
@@ -192,13 +194,30 @@ func (sc *scheduler) park(ps *procState, what string) stepKind {
 		sc.mu.Unlock()
 		return stepProceed
 	}
+	if ps.parked != nil {
+		// the process this command is attributed to is already parked: two requests of one replica are running at the same time (one of them was
+		// reported "blocked" and has woken up). It cannot be scheduled any more; let it run and make it visible in the trace.
+		sc.anomalies = append(sc.anomalies, ps.pid+":UNSCHEDULED "+what)
+		sc.mu.Unlock()
+		return stepProceed
+	}
 	ps.parked = st
+	if sc.outstanding == nil {
+		sc.outstanding = map[*parkedStep]bool{}
+	}
+	sc.outstanding[st] = true
 	sc.mu.Unlock()
 	if os.Getenv("VERIF_DEBUG") != "" {
 		fmt.Fprintln(os.Stderr, "      park", ps.pid, what)
 	}
-	sc.events <- ps.pid
+	select {
+	case sc.events <- ps.pid:
+	default: // nobody is listening right now; step() polls anyway
+	}
 	k := <-st.reply
+	sc.mu.Lock()
+	delete(sc.outstanding, st)
+	sc.mu.Unlock()
 	return k
 }
 
@@ -217,7 +236,10 @@ func (sc *scheduler) spawn(pid string, rp *replica, b *browser, method, target s
 		sc.mu.Lock()
 		ps.resp, ps.done, ps.parked = resp, true, nil
 		sc.mu.Unlock()
-		sc.events <- pid
+		select {
+		case sc.events <- pid:
+		default:
+		}
 	}(ps.parked)
 }
 
@@ -326,15 +348,25 @@ func (sc *scheduler) stop() {
 	sc.active = false
 	var pend []*parkedStep
 	for _, ps := range sc.procs {
-		if ps.parked != nil && !ps.done {
-			pend = append(pend, ps.parked)
-			ps.parked = nil
-		}
+		ps.parked = nil
+	}
+	for st := range sc.outstanding {
+		pend = append(pend, st)
 	}
 	sc.mu.Unlock()
 	for _, st := range pend {
-		st.reply <- stepProceed // let stragglers run on unscheduled; nothing observes them any more
+		select {
+		case st.reply <- stepProceed: // let stragglers run on unscheduled; nothing observes them any more
+		default:
+		}
 	}
+}
+
+// fullTrace: the scheduled steps plus the commands that arrived outside the schedule
+func (sc *scheduler) fullTrace() []string {
+	sc.mu.Lock()
+	defer sc.mu.Unlock()
+	return append(append([]string{}, sc.trace...), sc.anomalies...)
 }
 
 func (sc *scheduler) status(pid string) int {
